@@ -11,8 +11,12 @@ import (
 	"math/rand"
 	"net/http"
 	"net/http/httptest"
+	"os"
+	"slices"
+	"sort"
 	"strconv"
 	"strings"
+	"sync"
 	"time"
 
 	"bngverif/hx"
@@ -453,7 +457,101 @@ func replaceCluster(r *rand.Rand) []string {
 	return seq
 }
 
+// node ids of which one is a string prefix of another, host-safe
+var prefixHosts = []string{"bng-1", "bng-10", "bng-11", "bng-100", "bng-2", "bng-20", "edge-a", "edge-a1", "10.0.0.1", "10.0.0.10"}
+
+// prefixCluster: three to five nodes with prefix-related ids end to end.  Every node's Peers list is in its own configured
+// order, with or without the node itself (with: NewPeerPool sorts the list in place; without: the configured order stays
+// in PeerPool.peers, which is what getPeerAddr walks); sometimes a peer is configured as <id>:8081 and its bare id joins
+// the ring by AddPeer.  The same subscribers are then allocated and queried at EVERY node: a forwarded request must reach
+// the node it is meant for (`addr`, `single`).
+func prefixCluster(r *rand.Rand) []string {
+	n := 3 + r.Intn(3)
+	// at least one prefix pair
+	pairs := [][2]string{{"bng-1", "bng-10"}, {"bng-1", "bng-11"}, {"bng-10", "bng-100"}, {"bng-2", "bng-20"}, {"edge-a", "edge-a1"}, {"10.0.0.1", "10.0.0.10"}}
+	pr := pairs[r.Intn(len(pairs))]
+	set := []string{pr[0], pr[1]}
+	for _, h := range shuffled(r, prefixHosts) {
+		if len(set) < n && h != pr[0] && h != pr[1] {
+			set = append(set, h)
+		}
+	}
+	set = shuffled(r, set)
+	var seq []string
+	for i, self := range set {
+		order := shuffled(r, without(set, self))
+		if r.Intn(3) == 0 {
+			// the longer id of the pair first
+			var o2 []string
+			for _, x := range order {
+				if x == pr[1] {
+					o2 = append([]string{x}, o2...)
+				} else {
+					o2 = append(o2, x)
+				}
+			}
+			order = o2
+		}
+		if r.Intn(3) == 0 {
+			order = append(order, self)
+			order = shuffled(r, order)
+		}
+		ported := ""
+		if r.Intn(5) == 0 && len(order) > 0 {
+			// one peer configured by address; its bare id joins the ring afterwards and the address entry leaves it
+			j := r.Intn(len(order))
+			if order[j] != self {
+				ported = order[j]
+				order[j] = ported + ":8081"
+			}
+		}
+		seq = append(seq, fmt.Sprintf("node %d %s %s", i, id(self), ids(order)))
+		if ported != "" {
+			seq = append(seq, fmt.Sprintf("addpeer %d %s", i, id(ported)), fmt.Sprintf("removepeer %d %s", i, id(ported+":8081")))
+		}
+	}
+	keys := make([]string, 10+r.Intn(10))
+	for i := range keys {
+		keys[i] = fmt.Sprintf("sub-%d", r.Intn(100000))
+	}
+	for _, k := range keys {
+		for i := range set {
+			seq = append(seq, fmt.Sprintf("q %d %s", i, id(k)), fmt.Sprintf("alloc %d %s", i, id(k)))
+		}
+	}
+	return seq
+}
+
+// churnSeq (RV_STRESS=1, run on a binary built with -race): readers rank / look up / allocate one subscriber while a writer
+// removes and re-adds peers of the same pool.
+func churnSeq(r *rand.Rand) []string {
+	n := 3 + r.Intn(4)
+	set := pickSet(r, hosts, n)
+	var seq []string
+	for i, self := range set {
+		seq = append(seq, fmt.Sprintf("node %d %s %s", i, id(self), ids(shuffled(r, without(set, self)))))
+	}
+	for j, m := 0, 4+r.Intn(6); j < m; j++ {
+		i := r.Intn(n)
+		k := fmt.Sprintf("sub-%d", r.Intn(1000))
+		victims := shuffled(r, without(set, set[i]))[:1+r.Intn(2)]
+		seq = append(seq, fmt.Sprintf("churn %d %s %d %s", i, id(k), 20+r.Intn(60), ids(victims)))
+		seq = append(seq, fmt.Sprintf("q %d %s", i, id(k)))
+	}
+	return seq
+}
+
 func (comp) Gen(r *rand.Rand, tier string, emit func([]string)) {
+	if os.Getenv("RV_STRESS") != "" {
+		cnt := 60
+		if tier == "thorough" {
+			cnt = 600
+		}
+		for i := 0; i < cnt; i++ {
+			emit(churnSeq(r))
+		}
+		return
+	}
 	nAgree, nPerm5, nHealth, nCluster := 1500, 3, 60, 60
 	if tier == "thorough" {
 		nAgree, nPerm5, nHealth, nCluster = 30000, 40, 1200, 1200
@@ -484,6 +582,16 @@ func (comp) Gen(r *rand.Rand, tier string, emit func([]string)) {
 	}
 	for i := 0; i < nReplaceCluster; i++ {
 		emit(replaceCluster(r))
+	}
+	nPrefix := 150
+	if tier == "thorough" {
+		nPrefix = 3000
+	}
+	for i := 0; i < nPrefix; i++ {
+		emit(prefixCluster(r))
+	}
+	for i := 0; i < 5; i++ {
+		emit(churnSeq(r)) // the same op without the race detector (the race pass of checks/c17.py runs it under -race)
 	}
 }
 
@@ -531,6 +639,9 @@ func (r *run) Do(op string) string {
 				peers = append(peers, unid(t))
 			}
 		}
+		// no spare capacity: NewPeerPool's append(cfg.Peers, NodeID) then moves to a new array and PeerPool.peers keeps
+		// the configured order (with spare capacity the in-place sort would rearrange the caller's slice under it)
+		peers = slices.Clip(peers)
 		p, err := pool.NewPeerPool(pool.PeerPoolConfig{NodeID: self, Peers: peers, Network: "10.77.0.0/24",
 			Gateway: "10.77.0.1", DNSServers: []string{"10.77.0.1"}, LeaseTime: time.Hour})
 		if err != nil {
@@ -541,8 +652,12 @@ func (r *run) Do(op string) string {
 		p.RegisterHandlers(mux)
 		r.pools[i] = p
 		r.selfs[i] = self
+		// the transport: a node is reached under its id and under <id>:8081 (first registration wins)
 		if _, dup := r.muxes[self]; !dup {
 			r.muxes[self] = mux
+		}
+		if _, dup := r.muxes[self+":8081"]; !dup {
+			r.muxes[self+":8081"] = mux
 		}
 		return "ok"
 	}
@@ -566,8 +681,11 @@ func (r *run) Do(op string) string {
 		if p.IsLocalOwner(x) {
 			loc = 1
 		}
-		return fmt.Sprintf("owner=%s local=%d ranked=%s howner=%s", id(p.GetOwner(x)), loc,
-			ids(p.RankedForVerif(x)), id(p.HealthyOwnerForVerif(x)))
+		ho := p.HealthyOwnerForVerif(x)
+		return fmt.Sprintf("owner=%s local=%d ranked=%s howner=%s addr=%s", id(p.GetOwner(x)), loc,
+			ids(p.RankedForVerif(x)), id(ho), id(p.PeerAddrForVerif(ho)))
+	case f[0] == "churn" && len(f) == 5:
+		return r.churn(p, x, f[3], f[4])
 	case f[0] == "alloc" && len(f) == 3:
 		resp, err := p.Allocate(context.Background(), x, nil)
 		if err != nil {
@@ -576,6 +694,71 @@ func (r *run) Do(op string) string {
 		return "served=" + id(resp.NodeID)
 	}
 	return "badop"
+}
+
+// churn: `rounds` times, every listed peer is removed from pool p and added back (the membership alternates between the
+// configured set and that set without one peer) while four readers look the subscriber up (GetOwner, the healthy owner,
+// the ranked list, Allocate).  Reports the distinct owners / serving nodes and the distinct ranked lists the readers saw;
+// the driver judges them against the model's answers for the memberships the writer went through.
+func (r *run) churn(p *pool.PeerPool, key, roundsTok, victimsTok string) string {
+	rounds, err := strconv.Atoi(roundsTok)
+	if err != nil || rounds < 1 || rounds > 10000 || victimsTok == "-" {
+		return "badop"
+	}
+	var victims []string
+	for _, t := range strings.Split(victimsTok, ",") {
+		victims = append(victims, unid(t))
+	}
+	var mu sync.Mutex
+	owners := map[string]bool{}
+	rankeds := map[string]bool{}
+	stop := make(chan struct{})
+	var wg sync.WaitGroup
+	for g := 0; g < 4; g++ {
+		wg.Add(1)
+		go func(g int) {
+			defer wg.Done()
+			for n := 0; ; n++ {
+				select {
+				case <-stop:
+					if n > 0 {
+						return
+					}
+				default:
+				}
+				var o []string
+				o = append(o, p.GetOwner(key), p.HealthyOwnerForVerif(key))
+				if resp, err := p.Allocate(context.Background(), key, nil); err == nil {
+					o = append(o, resp.NodeID)
+				}
+				rk := strings.ReplaceAll(ids(p.RankedForVerif(key)), ",", ";")
+				mu.Lock()
+				for _, x := range o {
+					owners[x] = true
+				}
+				rankeds[rk] = true
+				mu.Unlock()
+			}
+		}(g)
+	}
+	for i := 0; i < rounds; i++ {
+		for _, v := range victims {
+			p.RemovePeer(v)
+			p.AddPeer(v)
+		}
+	}
+	close(stop)
+	wg.Wait()
+	var ol, rl []string
+	for x := range owners {
+		ol = append(ol, x)
+	}
+	sort.Strings(ol)
+	for x := range rankeds {
+		rl = append(rl, x)
+	}
+	sort.Strings(rl)
+	return fmt.Sprintf("owners=%s ranked=%s", ids(ol), strings.Join(rl, "|"))
 }
 
 func main() { hx.Main(comp{}) }
